@@ -17,3 +17,13 @@ func (r CharRecipe) VerifCount() *big.Int {
 	r.buildCharacterList()
 	return r.n()
 }
+
+// VerifTokens builds a token sequence from explicit values and types, so that
+// arbitrary sequences (any type byte, empty and over-long values) can be encoded.
+func VerifTokens(values []string, types []byte) Tokens {
+	ts := make(Tokens, len(values))
+	for i := range values {
+		ts[i] = Token{values[i], TokenType(types[i])}
+	}
+	return ts
+}
